@@ -180,6 +180,58 @@ class Built:
         return X.to_ndarray().reshape(self.dL, self.dR)
 
 
+def _bytes(x):
+    if x is None:
+        return None
+    x = np.asarray(x)
+    return (str(x.dtype), x.shape, np.ascontiguousarray(x).tobytes())
+
+
+def leg_fingerprint(leg):
+    """byte-level fingerprint of a LegCharge / LegPipe and, for pipes, of every incoming leg (recursively).
+    Leg objects are shared between arrays: no routine may assign to any of these attributes of an operand's leg."""
+    fp = [type(leg).__name__, int(leg.ind_len), int(leg.block_number), int(leg.qconj), bool(leg.sorted), bool(leg.bunched),
+          _bytes(leg.slices), _bytes(leg.charges), _bytes(leg.chinfo.mod), tuple(leg.chinfo.names)]
+    if hasattr(leg, 'legs'):      # LegPipe
+        fp += [int(leg.nlegs), tuple(leg.subshape), tuple(leg.subqshape), _bytes(leg.q_map), _bytes(leg.q_map_slices),
+               _bytes(getattr(leg, '_perm', None)), _bytes(getattr(leg, '_strides', None))]
+        fp += [leg_fingerprint(x) for x in leg.legs]
+    return tuple(fp)
+
+
+def array_fingerprint(X):
+    """what a caller can observe of an operand: value, labels, total charge, dtype, and every reachable leg object"""
+    return dict(dtype=str(X.dtype), qtotal=_bytes(X.qtotal), labels=tuple(X.get_leg_labels()), shape=tuple(X.shape),
+                value=_bytes(X.to_ndarray()), block_dtypes=tuple(sorted({str(b.dtype) for b in X._data})),
+                leg_ids=tuple(id(l) for l in X.legs), legs=tuple(leg_fingerprint(l) for l in X.legs))
+
+
+def operand_fingerprint(B):
+    fp = dict(A=array_fingerprint(B.A))
+    if B.T is not B.A:
+        fp['T'] = array_fingerprint(B.T)      # the tensor the pipes of A were made from shares its legs with them
+    fp['elegs'] = tuple(leg_fingerprint(l) for l in B.elegs)
+    return fp
+
+
+def operand_diff(before, after):
+    """None, or (clause, detail) naming what changed"""
+    for name in ('A', 'T'):
+        if name not in before:
+            continue
+        b, a = before[name], after[name]
+        for k in ('legs', 'leg_ids'):
+            if b[k] != a[k]:
+                which = [i for i in range(len(b[k])) if i >= len(a[k]) or b[k][i] != a[k][i]]
+                return ('operand-leg-mutated', '%s: leg(s) %r of the operand changed (%s)' % (name, which, k))
+        for k in ('value', 'labels', 'qtotal', 'dtype', 'shape', 'block_dtypes'):
+            if b[k] != a[k]:
+                return ('operand-changed', '%s: %s of the operand changed' % (name, k))
+    if before['elegs'] != after['elegs']:
+        return ('operand-leg-mutated', 'an elementary leg object of the operand changed')
+    return None
+
+
 def expected_counter(inner):
     return {tuple(int(x) for x in c): int(m) for c, m in inner}
 
@@ -688,6 +740,26 @@ def run_case(B, ana, l, npc, force_fallback=False):
     if fn is None:
         raise core.MachineryError('unknown Factor op %r' % op)
     exp_res = str(l['res'])
+    before = operand_fingerprint(B)
+    r = _run_relation(B, l, npc, fn, op, exp_res, force_fallback)
+    # the operand (value, labels, qtotal, dtype and every LegCharge / LegPipe object reachable from it) must be untouched,
+    # whatever the routine returned or raised; this is reported before any relation that may merely be a consequence
+    try:
+        after = operand_fingerprint(B)
+    except Exception as e:
+        return ('operand-changed', 'the operand is not readable after the call: %r' % (e,))
+    d = operand_diff(before, after)
+    if d is not None:
+        return (d[0], d[1] + ('; relation result: %r' % (r,) if r else ''))
+    if r is None:
+        try:
+            B.A.test_sanity()
+        except Exception as e:
+            return ('operand-changed', repr(e))
+    return r
+
+
+def _run_relation(B, l, npc, fn, op, exp_res, force_fallback):
     try:
         with warnings.catch_warnings():
             warnings.simplefilter('ignore')
@@ -710,16 +782,4 @@ def run_case(B, ana, l, npc, force_fallback=False):
         got = exp_res
     if got == 'ok' and exp_res != 'ok':
         return ('no-error', 'expected %s' % exp_res)
-    # the operand must be untouched
-    A, A0 = B.A, B.A0
-    try:
-        same = (A.get_leg_labels() == A0.get_leg_labels() and np.array_equal(A.qtotal, A0.qtotal)
-                and np.array_equal(A.to_ndarray(), A0.to_ndarray()))
-        A.test_sanity()
-        for a, b in zip(A.legs, A0.legs):
-            a.test_equal(b)
-    except Exception as e:
-        return ('operand-modified', repr(e))
-    if not same:
-        return ('operand-modified', 'a differs after the call')
     return None
